@@ -631,6 +631,8 @@ WITNESS_PROGRAMS = [
     ('program: for i = 1, 2.5 do print(i) end',
      'for i = 1, 2.5 do print(i) end\nfor i = 1, 3 do print(i) end\n',
      'for i = 1, 2.5 do print(i) end\nfor i = 1, 3 do print(i) end\n', 'gcc'),
+    ("program: local v: number = -0.0 print(v - 0)",
+     "local v: number = -0.0\nprint(v - 0)\n", "local v = -0.0\nprint(v - 0)\n", "gcc"),
     # order of the values of a multi-variable declaration (theorem C01_vardecl_order_refuted, coq/C09/VarDecl.v)
     ("program: local a, b = f(), g() with b never read, inside a function (f and g print)",
      "local function f(): integer print('f') return 1 end\nlocal function g(): integer print('g') return 2 end\n"
